@@ -1515,8 +1515,8 @@ func c15LockHistory(c *Ctx, rt *core.Runtime, pr *c15Pair, n int) {
 			gotFine = append(gotFine, "1")
 			if !holds && had && !lockExists() {
 				r.violate(Violation{Kind: "property", Key: "C15:refused-attacher-removed-lock",
-					What:  fmt.Sprintf("process %d, which does not own the pipestance (its attach was refused), died through the signal-handler path and removed _lock", p),
-					Input: map[string]interface{}{"history": strings.Join(fine, ","), "program": pr.a.text},
+					What:   fmt.Sprintf("process %d, which does not own the pipestance (its attach was refused), died through the signal-handler path and removed _lock", p),
+					Input:  map[string]interface{}{"history": strings.Join(fine, ","), "program": pr.a.text},
 					Broken: "theorem Props.C15.lts_death_of_bystander_changes_nothing"})
 			}
 		default:
@@ -1536,21 +1536,21 @@ func c15LockHistory(c *Ctx, rt *core.Runtime, pr *c15Pair, n int) {
 				gotFine = append(gotFine, "0")
 				if lockExists() != hadLock || len(held) != hadHolders {
 					r.violate(Violation{Kind: "property", Key: "C15:refused-attach-changed-state",
-						What:  "a refused attach changed the lock file",
-						Input: map[string]interface{}{"history": strings.Join(fine, ","), "program": pr.a.text},
+						What:   "a refused attach changed the lock file",
+						Input:  map[string]interface{}{"history": strings.Join(fine, ","), "program": pr.a.text},
 						Broken: "theorem Props.C15.lts_refused_attach_changes_nothing"})
 				}
 			}
 		}
 		if len(held) > 1 {
 			r.violate(Violation{Kind: "property", Key: "C15:two-writers", What: "two runtimes own the same pipestance for writing",
-				Input: map[string]interface{}{"history": strings.Join(fine, ","), "program": pr.a.text},
+				Input:  map[string]interface{}{"history": strings.Join(fine, ","), "program": pr.a.text},
 				Broken: "theorem Props.C15.lts_mutual_exclusion_partial"})
 			break
 		}
 		if len(held) == 1 && !lockExists() {
 			r.violate(Violation{Kind: "property", Key: "C15:owner-without-lock-file", What: "a live owner exists but _lock does not",
-				Input: map[string]interface{}{"history": strings.Join(fine, ","), "program": pr.a.text},
+				Input:  map[string]interface{}{"history": strings.Join(fine, ","), "program": pr.a.text},
 				Broken: "theorem Props.C15.lts_mutual_exclusion_partial"})
 			break
 		}
